@@ -163,6 +163,17 @@ func KillAndEvictPods(evictionExecutor EvictionExecutor, node *corev1.Node, task
 		releaseTarget := task.ReleaseTarget
 		podInfos := task.SortedEvictPods
 		releaseReason := task.Reason
+		// Pods of this list that were evicted in a previous round but are still present release their
+		// resources wherever they sit in the sorted list: count all of them before picking new victims.
+		for _, info := range podInfos {
+			podKey := util.GetPodKey(info.Pod)
+			if evictedPodsMp[podKey] || !evictionExecutor.IsPodEvicted(info.Pod) {
+				continue
+			}
+			evictedPodsMp[podKey] = true
+			addResource(releasedAll, aggregateReleaseFunc(info))
+			klog.V(4).Infof("pod %s was evicted but still present, count as pending release, release reason: %v", podKey, releaseReason)
+		}
 		// releasedAll accumulates across tasks, so the completion check compares the task's
 		// original target against the accumulated release to avoid double subtraction
 		if len(subReleaseListNoNegative(task.ToReleaseResource, releasedAll[releaseTarget])) == 0 {
